@@ -548,7 +548,8 @@ def gen_element(rng, cfg, n_ops):
     for _ in range(n_ops):
         live = [k for k, s in eshape.items() if s is not None]
         op = rng.choice(["elem", "elemref", "elemmv", "elemcopy", "elemmove", "elemassign", "elemmassign", "elemswap", "elemtoref",
-                         "elemtorefm", "elemfromref", "elemfromrefm", "elemdestroy", "elem", "elemassign", "elemmassign"])
+                         "elemtorefm", "elemfromref", "elemfromrefm", "elemdestroy", "elem", "elemassign", "elemmassign",
+                         "elemcopya", "elemmovea"])
         if op in ("elem", "elemref", "elemmv"):
             k = rng.randrange(5)
             s, i = rng.randrange(2), rng.randrange(3)
@@ -564,6 +565,18 @@ def gen_element(rng, cfg, n_ops):
             ealloc[b] = ealloc[a] if op == "elemmove" else (ealloc[a] + 1 if ealloc[a] >= 100 else ealloc[a])
             if op == "elemmove":
                 eshape[a] = None
+        elif op in ("elemcopya", "elemmovea") and live:
+            # allocator-extended copy / move construction: equal and unequal allocators
+            a = rng.choice(live)
+            b = rng.choice([x for x in range(5) if x != a])
+            al = rng.choice([1, 2])
+            lines.append("%s e%d e%d %d" % (op, a, b, al))
+            eshape[b] = eshape[a]
+            if op == "elemmovea" and (ae or ealloc[a] == al):
+                ealloc[b] = ealloc[a]
+                eshape[a] = None
+            else:
+                ealloc[b] = al
         elif op in ("elemassign", "elemmassign") and live:
             a = rng.choice(live)
             b = rng.choice(list(eshape))
@@ -655,6 +668,38 @@ def gen_fault_matrix(rng, cfg, faults=(0, 1)):
                       "new v4 2 %d %s 1" % (2 * pay0, fixed_text(fixed_b)), "emplace v4 %s" % gen_elem(rng, cfg, fixed_b, 3, 10 ** 9, same)[0],
                       "clear v1", "dump v1", "copyassign v4 v1", "dump v1", "copyassign v4 v0", "dump v0",
                       "destroy v0", "destroy v1", "end"]
+            seqs.append(lines)
+    return seqs
+
+
+def gen_element_faults(rng, cfg, faults=(0,)):
+    """C17 on standalone elements: every allocating construction / assignment of a ContiguousElement (from the three kinds
+    of reference, copy, allocator-extended copy and move with equal and unequal allocators, both assignments in both size
+    directions) with its allocation failing; afterwards every operand is dumped, assigned to, and destroyed"""
+    fixed = [rng.choice([1, 2]) for _ in range(cfg.nfixed())]
+
+    def setup():
+        nv = sum(1 for p in cfg.params if p[0] == "v")
+        lines = ["tables", "new v0 3 2000 %s 1" % fixed_text(fixed)]
+        lines.append("emplace v0 %s" % gen_elem(rng, cfg, fixed, 1, 10 ** 9, [1] * nv)[0])     # small
+        lines.append("emplace v0 %s" % gen_elem(rng, cfg, fixed, 6, 10 ** 9, [6] * nv)[0])     # large
+        lines.append("emplace v0 %s" % gen_elem(rng, cfg, fixed, 3, 10 ** 9, [3] * nv)[0])
+        lines += ["elem e0 v0 0 1", "elem e1 v0 1 2"]
+        return lines
+
+    seqs = []
+    ops = ["elem e2 v0 2 1", "elemref e2 v0 2 2", "elemmv e2 v0 2 1", "elemcopy e0 e2", "elemcopy e1 e2", "elemcopya e0 e2 1", "elemcopya e0 e2 2",
+           "elemmovea e0 e2 1", "elemmovea e0 e2 2", "elemmovea e1 e2 1", "elemassign e0 e1", "elemassign e1 e0", "elemmassign e0 e1",
+           "elemmassign e1 e0", "elemmove e0 e2", "elemswap e0 e1"]
+    pocs_ok = cfg.alloc[2] == "1" or cfg.alloc[3] == "1"
+    for op in ops:
+        if op.startswith("elemswap") and not pocs_ok:
+            continue
+        for k in faults:
+            lines = setup()
+            lines += ["failat %d" % k, op, "failoff", "elemdump e0", "elemdump e1", "elemdump e2", "dump v0",
+                      "elem e3 v0 2 1", "elemassign e3 e1", "elemdump e1", "elemdestroy e0", "elemdestroy e1", "elemdestroy e2", "elemdestroy e3",
+                      "destroy v0", "end"]
             seqs.append(lines)
     return seqs
 
